@@ -74,7 +74,7 @@ Definition check_tcase (c : tcase) : bool :=
    database yields the same tables.  Maps, ports, steps and dependency rows are compared by name / as sets (dict
    insertion order, the interleaving of concurrent INSERTs and SQLite's row order are not modelled); step ids are
    matched through the step names. *)
-From SF Require Export Persist.CfgModel.
+From SF Require Export Persist.CfgModel Persist.TreeModel.
 
 Definition ostr_eqb (a b : option string) : bool := opt_eqb String.eqb a b.
 Definition pdeploy_eqb (a b : pdeploy) : bool :=
@@ -102,6 +102,34 @@ Definition cdb_eqb (a b : cdb) : bool :=
 
 
 From SF Require Export Persist.WfModel.
+
+Definition jmap_eqb (a b : list (string * jv)) : bool :=
+  Nat.eqb (length a) (length b) &&
+  forallb (fun kv => match alookup (fst kv) b with Some v => jv_eqb v (snd kv) | None => false end) a.
+
+Fixpoint ptree_eqb (a b : ptree) : bool :=
+  match a, b with
+  | PNode c ps ks subs, PNode c' ps' ks' subs' =>
+      String.eqb c c' && jmap_eqb ps ps' && list_eqb String.eqb ks ks' &&
+      (fix go (x y : list ptree) : bool :=
+         match x, y with
+         | [], [] => true
+         | a :: x', b :: y' => ptree_eqb a b && go x' y'
+         | _, _ => false
+         end) subs subs'
+  end.
+
+Fixpoint dtree_eqb (a b : dtree) : bool :=
+  match a, b with
+  | DNode c ps w ks subs, DNode c' ps' w' ks' subs' =>
+      String.eqb c c' && jmap_eqb ps ps' && onat_eqb w w' && list_eqb String.eqb ks ks' &&
+      (fix go (x y : list dtree) : bool :=
+         match x, y with
+         | [], [] => true
+         | a :: x', b :: y' => dtree_eqb a b && go x' y'
+         | _, _ => false
+         end) subs subs'
+  end.
 
 Definition smap_eqb (a b : list (string * string)) : bool :=
   Nat.eqb (length a) (length b) &&
@@ -148,7 +176,8 @@ Definition skind_eqb (a b : skind) : bool :=
   | KComb l x, KComb l' y => Bool.eqb l l' && pcomb_eqb x y
   | KPlain x, KPlain y => String.eqb x y
   | KJobIn x, KJobIn y => String.eqb x y
-  | KExecute x, KExecute y => smap_eqb x y
+  | KExecute x k p c, KExecute y k' p' c' =>
+      smap_eqb x y && list_eqb String.eqb k k' && list_eqb ptree_eqb p p' && opt_eqb ptree_eqb c c'
   | KDeploy x, KDeploy y => pdeploy_eqb x y
   | KSchedule b p ds, KSchedule b' p' ds' => pbinding_eqb b b' && String.eqb p p' && list_eqb jv_eqb ds ds'
   | _, _ => false
@@ -175,7 +204,8 @@ Definition dparams_eqb (a b : dparams) : bool :=
   | DCombP l x, DCombP l' y => Bool.eqb l l' && dcomb_eqb x y
   | DPlain x, DPlain y => String.eqb x y
   | DJobIn c x, DJobIn c' y => String.eqb c c' && Nat.eqb x y
-  | DExecute x m, DExecute y m' => Nat.eqb x y && smap_eqb m m'
+  | DExecute x m k p c, DExecute y m' k' p' c' =>
+      Nat.eqb x y && smap_eqb m m' && list_eqb String.eqb k k' && list_eqb dtree_eqb p p' && opt_eqb dtree_eqb c c'
   (* configuration ids are compared through what they load to (canon_steps), not as numbers *)
   | DDeploy _ cp, DDeploy _ cp' => Nat.eqb cp cp'
   | DSchedule ts fs jp cps p ds, DSchedule ts' fs' jp' cps' p' ds' =>
@@ -244,7 +274,17 @@ Definition check_fcase (c : fcase) : bool :=
        list_eqb Nat.eqb (fst ids) tids && list_eqb Nat.eqb (snd ids) fids && cdb_eqb d db)
   end.
 
+(* ------------------------------------------------------------------ standalone trees (Persist/TreeModel.v)
+   CTree w orig stored loaded: [orig] (what the harness read from the attributes of the real object) was saved by the
+   real save(); [stored] is the nested {"type", "params"} it produced; the real load() produced [loaded]. *)
+Inductive rcase := CTree (w : option nat) (orig : ptree) (stored : dtree) (loaded : option ptree).
+Definition check_rcase (c : rcase) : bool :=
+  match c with
+  | CTree w orig stored loaded =>
+      dtree_eqb (save_tree w orig) stored && opt_eqb ptree_eqb (load_tree w stored) loaded
+  end.
+
 (* one case type for the harness *)
-Inductive ccase := XTok (c : tcase) | XWf (c : wcase) | XCfg (c : fcase).
+Inductive ccase := XTok (c : tcase) | XWf (c : wcase) | XCfg (c : fcase) | XTree (c : rcase).
 Definition check_case (c : ccase) : bool :=
-  match c with XTok c => check_tcase c | XWf c => check_wcase c | XCfg c => check_fcase c end.
+  match c with XTok c => check_tcase c | XWf c => check_wcase c | XCfg c => check_fcase c | XTree c => check_rcase c end.
